@@ -10,17 +10,21 @@ EXTENDS PkgDb, TLC, Json, IOUtils
 
 Rec == ndJsonDeserialize(IOEnv.TRACE)
 
+Root(r) == IF "root" \in DOMAIN r.in THEN r.in.root ELSE "dir"
+Flag(e, f) == f \in DOMAIN e /\ e[f] = "T"
 Cfg(r) == [i \in 1..Len(r.in.entries) |-> [name |-> r.in.entries[i].name, dir |-> r.in.entries[i].dir = "T",
-                                           files |-> RangeOf(r.in.entries[i].files)]]
+                                           files |-> RangeOf(r.in.entries[i].files), utf8 |-> ~Flag(r.in.entries[i], "raw")]]
 \* base/version are judged for names with a '-' (the statement says "its last '-'")
 Norm(x) == IF HasDash(x.pkgname) THEN x ELSE [pkgname |-> x.pkgname, base |-> <<>>, version |-> <<>>]
 DbVerdict(r) ==
-    IF ~({"listed", "reads_ok"} \subseteq DOMAIN r.out) THEN "bad"
-    ELSE LET want == {Norm(x) : x \in Listed(Cfg(r))}
+    IF ~({"open", "listed", "errors", "reads_ok"} \subseteq DOMAIN r.out) THEN "bad"
+    ELSE LET want == {Norm(x) : x \in DbListed(Root(r), Cfg(r))}
              got  == r.out.listed
-         IN IF /\ \A i \in 1..Len(got) : DOMAIN got[i] = {"pkgname", "base", "version"}
+         IN IF /\ r.out.open = OpenOutcome(Root(r))
+               /\ \A i \in 1..Len(got) : DOMAIN got[i] = {"pkgname", "base", "version"}
                /\ {Norm(got[i]) : i \in 1..Len(got)} = want
                /\ Len(got) = Cardinality(want)                       \* each exactly once
+               /\ r.out.errors = DbErrors(Root(r), Cfg(r))
                /\ r.out.reads_ok = "T"
             THEN "ok" ELSE "bad"
 
